@@ -14,6 +14,9 @@ var planStyles = []string{"one", "uniform", "geometric", "hunter", "bigbuf", "wh
 func genPlan(r *core.Rng, style string, input []byte, special string) sim.Plan {
 	var p sim.Plan
 	n := len(input)
+	if n > 500000 && style != "whole" {
+		style = "bigbuf" // lines beyond 1 MiB: reads of 512 bytes and more only
+	}
 	switch style {
 	case "whole":
 		p.Tail = 0
@@ -28,6 +31,9 @@ func genPlan(r *core.Rng, style string, input []byte, special string) sim.Plan {
 		}
 	case "geometric":
 		m := core.Pick(r, []int{2, 5, 20, 200})
+		if n > 50000 {
+			m = 200 // bufio.Scanner rescans its buffer after every read: tiny reads on long lines are quadratic
+		}
 		for got := 0; got < n; {
 			c := r.Geom(m)
 			p.Chunks = append(p.Chunks, c)
